@@ -38,9 +38,10 @@ from common import PY, REPO, setup_repo_import
 
 import c16_transcript as T
 import c16_pyset as PS
+import c16_htie as HT
 
 ID = "C16"
-GENS = ["c16_tables"]
+GENS = ["c16_tables", "c16_handlers"]
 PROOF = "Gallia.Proofs.C16"
 DRIVER = "c16"
 ORACLE = False
@@ -1161,6 +1162,7 @@ def check_c2(ctx, impl, c1_cases, c1_results, cli_cases=()):
                          impl=b["answers"][i], model=a["answers"][i], spec_violated=True, site="RandomUDSServer.respond")
     ctx.sample({"c2_config": {"seed": cfgs[0]["seed"], "params": cfgs[0]["params"], "history_head": cfgs[0]["history"][:12]},
                 "answers_head": ref["runs"][0].get("answers", [])[:12]})
+    return cfgs
 
 
 # ------------------------------------------------------------------------------------------------------------
@@ -1377,7 +1379,9 @@ def run(ctx, with_pyset=True):
             ctx.disagree("c2:model-differs:in-process", "two servers with the same seed and arguments differ within one process",
                          {"kind": "c1", "seed": c["seed"], "params": c["params"], "script": None}, impl=r2.get("dump"), model=r["dump"],
                          spec_violated=True, site="RandomUDSServer.randomize")
-    check_c2(ctx, impl, cases, results, cli_cases)
+    cfgs = check_c2(ctx, impl, cases, results, cli_cases)
+    # handler layer: AST obligations + recorded draws of every handler call against Model/VEcuRng.lean
+    HT.check_handlers(ctx, impl.S, impl.base_rng, cfgs or [])
 
 
 def replay(ctx, case):
